@@ -455,8 +455,9 @@ def check_property(pid, a, seed, timeout_ms, t0):
     }
     ev = {"property_id": pid, "tier": a.tier, "seed": seed, "level": level, "coverage": coverage,
           "assumptions": assumptions, "wall_s": wall, "violations": len(violations)}
-    os.makedirs(os.path.join(VERIF, "evidence"), exist_ok=True)
-    with open(os.path.join(VERIF, "evidence", pid + ".json"), "w") as f:
+    evdir = os.environ.get("VERIF_EVIDENCE_DIR") or os.path.join(VERIF, "evidence")   # (override: dev runs on scratch trees)
+    os.makedirs(evdir, exist_ok=True)
+    with open(os.path.join(evdir, pid + ".json"), "w") as f:
         json.dump(ev, f, indent=1, sort_keys=True)
 
     if os.environ.get("VERIF_RECORD_COSTS") == "1":      # dev: remember task durations for the scheduling order
